@@ -16,6 +16,10 @@ func init() {
 }
 
 func main() {
+	// with AWS_CA_BUNDLE set the AWS SDK gives every session (every table) a transport of its own,
+	// whose idle connections nobody can close: thousands of tables exhaust the file descriptors.
+	// The endpoints used here are plain http on localhost.
+	os.Unsetenv("AWS_CA_BUNDLE")
 	if len(os.Args) < 5 {
 		fmt.Fprintln(os.Stderr, "usage: harness <level> <seed> <n> <outdir> [args]")
 		os.Exit(2)
